@@ -212,6 +212,7 @@ def known_hosts(m0: int, f0: int, k0: int, m1: int, f1: int, k1: int, hi: int, a
     addr = pick(['', '10.0.0.1', '192.168.1.1'], ai)
     assume(host or addr)
     p = 2222 if port else None
+    prior = conc(prior, 0, 2)
     text = ''.join('%s%s %s\n' % ln for ln in lines)
     saved = (KH.import_public_key, KH.import_certificate, KH.import_certificate_subject)
     KH.import_public_key, KH.import_certificate, KH.import_certificate_subject = _imp_key, _imp_fail, _imp_fail
